@@ -300,6 +300,7 @@ struct Thr {
     opk: AtomicU8,
     last_state: AtomicU8,
     exited: AtomicBool,
+    joining: AtomicUsize,
 }
 
 struct Window {
@@ -427,6 +428,17 @@ impl World {
         if self.window_open.load(SeqCst) {
             self.check_invariant("at a scheduling point during the operation");
         }
+        // give the (private) join condition variables a readable name once somebody waits on them
+        for (i, t) in self.thr.iter().enumerate() {
+            let j = t.joining.load(SeqCst);
+            let tt = t.tid.load(SeqCst);
+            if j != usize::MAX && tt != usize::MAX {
+                if let Some(cv) = self.sim.waiting_on_cv(tt) {
+                    let _ = i;
+                    self.sim.name_object_if_unnamed(cv, format!("T{j}.cv_stopped"));
+                }
+            }
+        }
         let Some(j) = self.index_of_tid(tid) else { return };
         // transitions of the stepping thread's own state
         if let Some(st) = self.state_of(j) {
@@ -540,7 +552,9 @@ fn exec_ops(w: &Arc<World>, me: usize, dora: &Arc<DoraThread>) {
             Op::Spawn(j) => spawn_thread(w, j),
             Op::Join(j) => {
                 let target = w.thr[j].dora.lock().unwrap().clone().expect("join target exists");
+                t.joining.store(j, SeqCst);
                 target.join();
+                t.joining.store(usize::MAX, SeqCst);
                 if !w.thr[j].exited.load(SeqCst) {
                     w.sim.fail("join-returned-early", format!("T{me}: join(T{j}) returned before T{j} had finished"));
                 }
@@ -599,6 +613,7 @@ pub fn run_case(script: &Script, schedule: Schedule) -> RunResult {
                     opk: AtomicU8::new(OPK_NONE),
                     last_state: AtomicU8::new(0),
                     exited: AtomicBool::new(false),
+                    joining: AtomicUsize::new(usize::MAX),
                 })
                 .collect(),
             window: Mutex::new(None),
